@@ -296,6 +296,12 @@ impl Sess {
                 ev.extend(self.take_trace());
                 if ev.is_empty() { "_".to_string() } else { ev.join(";") }
             }
+            ["traceset"] => {
+                let mut ev = std::mem::take(&mut self.pending_trace);
+                ev.extend(self.take_trace());
+                ev.sort();
+                if ev.is_empty() { "_".to_string() } else { ev.join(";") }
+            }
             ["dump"] => self.dump(),
             ["plossnext", k, spec] => {
                 if self.worker.is_none() { self.spawn(); }
